@@ -1,4 +1,513 @@
+//! panicx — decides property C19 ("no peer-controlled input makes the library panic, overflow, slice
+//! out of bounds or loop without bound") by bounded-exhaustive enumeration of hostile inputs into
+//! every peer-facing parser of the real code. No sampling: every input set is a fully enumerated
+//! finite set (token strings in shortlex order, every single / double mutation of a seed corpus),
+//! each input delivered whole and fragmented. One sweep per entry point runs in a subprocess of this
+//! binary under an address-space cap, so an abort or allocation failure is a reported violation of
+//! that sweep instead of the end of the run. See DESIGN.md §4 C19 and ENGINE_GUIDE.md.
+
+mod core;
+mod ep_awc;
+mod ep_disp;
+mod ep_files;
+mod ep_h1;
+mod ep_hdr;
+mod ep_mp;
+mod ep_url;
+mod ep_ws;
+mod gen;
+mod hutil;
+
+use crate::core::*;
+use mc_core::report::{read_replay, Evidence, Reporter, Violation};
+use serde_json::{json, Value};
+use std::collections::BTreeMap;
+use std::io::Write as _;
+use std::os::unix::process::{CommandExt as _, ExitStatusExt as _};
+use std::process::{Command, Stdio};
+use std::time::{Duration, Instant};
+
+/// (name, relative share of the thorough wall budget)
+const GROUPS: [(&str, u32); 9] = [
+    ("h1-server", 20),
+    ("h1-client", 16),
+    ("ws", 10),
+    ("multipart", 14),
+    ("url", 10),
+    ("headers", 16),
+    ("files", 6),
+    ("dispatcher", 5),
+    ("awc", 3),
+];
+
+fn build_group(name: &str) -> Option<Group> {
+    Some(match name {
+        "h1-server" => ep_h1::server_group(),
+        "h1-client" => ep_h1::client_group(),
+        "ws" => ep_ws::group(),
+        "multipart" => ep_mp::group(),
+        "url" => ep_url::group(),
+        "headers" => ep_hdr::group(),
+        "files" => ep_files::group(),
+        "dispatcher" => ep_disp::group(),
+        "awc" => ep_awc::group(),
+        _ => return None,
+    })
+}
+
+const AS_CAP_BYTES: u64 = 8 << 30;
+
+fn machinery(msg: impl AsRef<str>) -> ! {
+    eprintln!("MACHINERY: {}", msg.as_ref());
+    std::process::exit(2)
+}
+
+fn child_command(args: &[String]) -> Command {
+    let exe = std::env::current_exe().unwrap_or_else(|e| machinery(format!("current_exe: {e}")));
+    let mut c = Command::new(exe);
+    c.args(args);
+    unsafe {
+        c.pre_exec(|| {
+            let lim = libc::rlimit { rlim_cur: AS_CAP_BYTES, rlim_max: AS_CAP_BYTES };
+            libc::setrlimit(libc::RLIMIT_AS, &lim);
+            // no core files from deliberate aborts
+            let z = libc::rlimit { rlim_cur: 0, rlim_max: 0 };
+            libc::setrlimit(libc::RLIMIT_CORE, &z);
+            Ok(())
+        });
+    }
+    c
+}
+
+fn wait_with_deadline(child: &mut std::process::Child, deadline: Instant) -> Option<std::process::ExitStatus> {
+    loop {
+        match child.try_wait() {
+            Ok(Some(st)) => return Some(st),
+            Ok(None) => {
+                if Instant::now() > deadline {
+                    let _ = child.kill();
+                    let _ = child.wait();
+                    return None;
+                }
+                std::thread::sleep(Duration::from_millis(20));
+            }
+            Err(e) => machinery(format!("wait: {e}")),
+        }
+    }
+}
+
+fn status_text(st: &std::process::ExitStatus) -> String {
+    match (st.code(), st.signal()) {
+        (Some(c), _) => format!("exit code {c}"),
+        (None, Some(s)) => format!("signal {s}"),
+        _ => "unknown status".into(),
+    }
+}
+
+// ------------------------------------------------------------------------------------------------
+// child: one sweep
+
+fn sweep_main(group_name: &str, tier: &str, result_path: &str, progress_path: &str, budget_s: u64) -> ! {
+    install_panic_hook(false);
+    let Some(group) = build_group(group_name) else { machinery(format!("unknown entry point {group_name}")) };
+    if let Some(f) = group.setup {
+        f();
+    }
+    let seed: u64 = std::env::var("VERIF_SEED").ok().and_then(|s| s.parse().ok()).unwrap_or(0);
+    let rp = result_path.to_string();
+    let teardown = group.teardown;
+    let cfg = SweepCfg {
+        thorough: tier == "thorough",
+        threads: mc_core::cli::threads(),
+        seed,
+        deadline: Instant::now() + Duration::from_secs(budget_s),
+        progress_path: Some(progress_path.to_string()),
+        on_hang: Box::new(move |res: SweepResult| {
+            let _ = std::fs::write(&rp, serde_json::to_string(&res).unwrap());
+            if let Some(f) = teardown {
+                f();
+            }
+            // the stuck worker cannot be stopped: leave the process
+            std::process::exit(3);
+        }),
+    };
+    let res = sweep(&group, cfg);
+    if let Some(f) = group.teardown {
+        f();
+    }
+    if let Err(e) = std::fs::write(result_path, serde_json::to_string(&res).unwrap()) {
+        machinery(format!("cannot write {result_path}: {e}"));
+    }
+    std::process::exit(0)
+}
+
+/// Re-execute one case named by its coordinates; prints the input before running it.
+fn probe_main(group_name: &str, tier: &str, unit: usize, idx: u64, inner: u64, mode: u64) -> ! {
+    install_panic_hook(true);
+    let Some(group) = build_group(group_name) else { machinery("unknown entry point") };
+    if let Some(f) = group.setup {
+        f();
+    }
+    let units = plan(&group, tier == "thorough");
+    let Some((ti, input)) = input_at(&group, &units, unit, idx, inner) else { machinery("probe coordinates out of range") };
+    let t = &group.targets[ti];
+    println!("INPUT {} {}", t.name, hex(&input));
+    let _ = std::io::stdout().flush();
+    let r = run_case(t, &input, Mode::from_code(mode));
+    if let Some(f) = group.teardown {
+        f();
+    }
+    match r {
+        Ran::Viol { sig, .. } => println!("VIOL {sig}"),
+        _ => println!("DONE"),
+    }
+    std::process::exit(0)
+}
+
+// ------------------------------------------------------------------------------------------------
+// replay
+
+fn replay_inner(file: &str) -> ! {
+    install_panic_hook(true);
+    let doc = read_replay(file);
+    let rp = if doc.get("replay").is_some() { doc["replay"].clone() } else { doc.clone() };
+    let gname = rp["entry_point"].as_str().unwrap_or("");
+    let tname = rp["target"].as_str().unwrap_or("");
+    let Some(input) = rp["input_hex"].as_str().and_then(unhex) else { machinery("replay: input_hex missing or malformed") };
+    let Some(mode) = rp["mode"].as_str().and_then(Mode::parse) else { machinery("replay: mode missing or malformed") };
+    let Some(group) = build_group(gname) else { machinery(format!("replay: unknown entry point {gname:?}")) };
+    if let Some(f) = group.setup {
+        f();
+    }
+    let Some(t) = group.targets.iter().find(|t| t.name == tname) else { machinery(format!("replay: unknown target {tname:?}")) };
+    println!("entry point: {gname}   target: {tname}   delivery: {}", mode.label());
+    println!("input ({} bytes): {}", input.len(), mc_core::show_short(&input, 400));
+    let _ = std::io::stdout().flush();
+    let (tx, rx) = std::sync::mpsc::channel();
+    std::thread::scope(|s| {
+        s.spawn(|| {
+            let r = run_case(t, &input, mode);
+            let _ = tx.send(r);
+        });
+        let code = match rx.recv_timeout(Duration::from_secs(CASE_TIMEOUT_S)) {
+            Ok(Ran::Class(c)) => {
+                println!("outcome: {c}");
+                println!("REPLAY: no panic, terminated");
+                0
+            }
+            Ok(Ran::Skip) => {
+                println!("REPLAY: the input is refused before it reaches this parser (undeliverable)");
+                0
+            }
+            Ok(Ran::Viol { sig, what }) => {
+                println!("REPLAY: clause=no-panic signature={sig}");
+                println!("  {what}");
+                1
+            }
+            Ok(Ran::Harness(m)) => {
+                eprintln!("MACHINERY: {m}");
+                2
+            }
+            Err(_) => {
+                println!("REPLAY: clause=no-panic signature=unbounded-loop:{tname}");
+                println!("  the case did not return within {CASE_TIMEOUT_S} s");
+                1
+            }
+        };
+        if let Some(f) = group.teardown {
+            f();
+        }
+        std::process::exit(code)
+    })
+}
+
+fn replay_main(file: &str) -> i32 {
+    let mut c = child_command(&["C19".into(), "--replay-inner".into(), file.into()]);
+    let st = c.status().unwrap_or_else(|e| machinery(format!("cannot start the replay process: {e}")));
+    match st.code() {
+        Some(c) => c,
+        None => {
+            println!("REPLAY: clause=no-panic signature=abort");
+            println!("  the process executing the case died with {}", status_text(&st));
+            1
+        }
+    }
+}
+
+// ------------------------------------------------------------------------------------------------
+// parent
+
+struct GroupRun {
+    name: &'static str,
+    res: Option<SweepResult>,
+    note: String,
+    extra_violations: Vec<Violation>,
+}
+
+fn abort_violation(group: &str, tier: &str, progress_path: &str, status: &str) -> Vec<Violation> {
+    // which of the cases in flight reproduces the death on its own?
+    let inflight = read_progress_file(progress_path);
+    let mut confirmed: Option<(String, String, Mode, String)> = None;
+    let mut candidates = Vec::new();
+    for (unit, idx, inner, mode) in inflight.iter().copied() {
+        let mut c = child_command(&[
+            "C19".into(),
+            "--probe".into(),
+            group.into(),
+            tier.into(),
+            unit.to_string(),
+            idx.to_string(),
+            inner.to_string(),
+            mode.code().to_string(),
+        ]);
+        c.stdout(Stdio::piped()).stderr(Stdio::null());
+        let Ok(mut ch) = c.spawn() else { continue };
+        let st = wait_with_deadline(&mut ch, Instant::now() + Duration::from_secs(CASE_TIMEOUT_S + 10));
+        let mut out = String::new();
+        if let Some(mut o) = ch.stdout.take() {
+            use std::io::Read as _;
+            let _ = o.read_to_string(&mut out);
+        }
+        let mut it = out.lines().next().unwrap_or("").split(' ');
+        let (_, target, hexs) = (it.next(), it.next().unwrap_or("").to_string(), it.next().unwrap_or("").to_string());
+        candidates.push(json!({"target": target, "input_hex": hexs, "mode": mode.label()}));
+        let died = match &st {
+            None => Some("no return (killed after the time cap)".to_string()),
+            Some(s) if s.code().is_none() => Some(status_text(s)),
+            _ => None,
+        };
+        if let (Some(d), None) = (died, &confirmed) {
+            confirmed = Some((target, hexs, mode, d));
+        }
+    }
+    let (what, replay, weight) = match confirmed {
+        Some((target, hexs, mode, d)) => (
+            format!("sweep process of entry point {group} died ({status}); re-executed alone, target {target} on input {:?} ({}) dies again: {d}", mc_core::show_short(&unhex(&hexs).unwrap_or_default(), 120), mode.label()),
+            json!({"entry_point": group, "target": target, "input_hex": hexs, "mode": mode.label()}),
+            (hexs.len() / 2) as u64,
+        ),
+        None => (
+            format!("sweep process of entry point {group} died ({status}); none of the {} cases in flight reproduces it alone", candidates.len()),
+            json!({"entry_point": group, "target": candidates.first().map(|c| c["target"].clone()).unwrap_or(Value::Null), "input_hex": candidates.first().map(|c| c["input_hex"].clone()).unwrap_or(json!("")), "mode": candidates.first().map(|c| c["mode"].clone()).unwrap_or(json!("whole")), "in_flight": candidates}),
+            u64::MAX / 2,
+        ),
+    };
+    vec![Violation { property: PROP.into(), clause: "no-abort".into(), signature: format!("abort:{group}"), what, replay, weight }]
+}
+
+fn run_group(name: &'static str, tier: &str, tmp: &std::path::Path, budget_s: u64) -> GroupRun {
+    let result_path = tmp.join(format!("{name}.result.json"));
+    let progress_path = tmp.join(format!("{name}.progress"));
+    let (rp, pp) = (result_path.to_string_lossy().to_string(), progress_path.to_string_lossy().to_string());
+    let mut c = child_command(&["C19".into(), "--sweep".into(), name.into(), tier.into(), rp.clone(), pp.clone(), budget_s.to_string()]);
+    c.stdout(Stdio::null());
+    let mut child = c.spawn().unwrap_or_else(|e| machinery(format!("cannot start the sweep process for {name}: {e}")));
+    // cooperative cap inside the child; hard cap a little later
+    let hard = Instant::now() + Duration::from_secs(budget_s + CASE_TIMEOUT_S + 30);
+    let st = wait_with_deadline(&mut child, hard);
+    let read_result = || -> Option<SweepResult> { std::fs::read_to_string(&rp).ok().and_then(|s| serde_json::from_str(&s).ok()) };
+    let mut run = GroupRun { name, res: None, note: String::new(), extra_violations: vec![] };
+    match st {
+        Some(s) if s.code() == Some(0) => {
+            run.res = read_result();
+            if run.res.is_none() {
+                machinery(format!("sweep {name} exited 0 without a result file"));
+            }
+        }
+        Some(s) if s.code() == Some(3) => {
+            // watchdog: a case did not return
+            run.res = read_result();
+            let hang = run.res.as_ref().and_then(|r| r.hang.clone()).unwrap_or(Value::Null);
+            let target = hang["target"].as_str().unwrap_or("?").to_string();
+            let input = hang["input_hex"].as_str().and_then(unhex).unwrap_or_default();
+            run.note = format!("a case of {target} did not return within {CASE_TIMEOUT_S} s; the sweep was abandoned there");
+            run.extra_violations.push(Violation {
+                property: PROP.into(),
+                clause: "terminates".into(),
+                signature: format!("unbounded-loop:{target}"),
+                what: format!("{target} on input {:?} ({}) did not return within {CASE_TIMEOUT_S} s", mc_core::show_short(&input, 120), hang["mode"].as_str().unwrap_or("?")),
+                replay: json!({"entry_point": name, "target": target, "input_hex": hex(&input), "mode": hang["mode"]}),
+                weight: input.len() as u64,
+            });
+        }
+        Some(s) if s.code() == Some(2) => machinery(format!("sweep process of {name} reported a machinery problem")),
+        Some(s) => {
+            let status = status_text(&s);
+            run.note = format!("sweep process died: {status}");
+            run.extra_violations = abort_violation(name, tier, &pp, &status);
+        }
+        None => {
+            run.note = "sweep process exceeded its hard time cap and was killed".into();
+            run.extra_violations = abort_violation(name, tier, &pp, "killed at the hard time cap");
+        }
+    }
+    run
+}
+
 fn main() {
-    eprintln!("MACHINERY: engine panicx is not built yet");
-    std::process::exit(2);
+    let raw: Vec<String> = std::env::args().collect();
+    // hidden sub-commands of the re-executed binary
+    if raw.len() >= 3 && raw[2] == "--sweep" {
+        if raw.len() != 8 {
+            machinery("usage: --sweep <entry point> <tier> <result file> <progress file> <budget s>");
+        }
+        sweep_main(&raw[3], &raw[4], &raw[5], &raw[6], raw[7].parse().unwrap_or(600));
+    }
+    if raw.len() >= 3 && raw[2] == "--probe" {
+        if raw.len() != 9 {
+            machinery("usage: --probe <entry point> <tier> <unit> <idx> <inner> <mode>");
+        }
+        let p = |i: usize| raw[i].parse::<u64>().unwrap_or_else(|_| machinery("probe: bad number"));
+        probe_main(&raw[3], &raw[4], p(5) as usize, p(6), p(7), p(8));
+    }
+    if raw.len() >= 4 && raw[2] == "--replay-inner" {
+        replay_inner(&raw[3]);
+    }
+
+    let args = mc_core::cli::parse();
+    if args.property != PROP {
+        machinery(format!("panicx serves C19 only (got {})", args.property));
+    }
+    if let Some(f) = &args.replay {
+        std::process::exit(replay_main(f));
+    }
+    let thorough = args.tier == "thorough";
+    let start = Instant::now();
+    let wall_cap = args.wall_s.unwrap_or(if thorough { 24 * 60 } else { 5 * 60 });
+    let only: Option<Vec<String>> = std::env::var("PANICX_ONLY").ok().map(|s| s.split(',').map(str::to_string).collect());
+    let tmp = tempfile::Builder::new().prefix("panicx-").tempdir().unwrap_or_else(|e| machinery(format!("tempdir: {e}")));
+
+    let mut runs: Vec<GroupRun> = Vec::new();
+    let mut weight_left: u32 = GROUPS.iter().map(|g| g.1).sum();
+    for (name, w) in GROUPS {
+        let remaining = wall_cap.saturating_sub(start.elapsed().as_secs());
+        let budget = (remaining * w as u64 / weight_left.max(1) as u64).max(5);
+        weight_left -= w;
+        if let Some(o) = &only {
+            if !o.iter().any(|x| x == name) {
+                continue;
+            }
+        }
+        let t0 = Instant::now();
+        let run = run_group(name, &args.tier, tmp.path(), budget);
+        eprintln!(
+            "  sweep {name}: {} evaluations, {} non-trivial classes, complete={} in {:.1}s{}{}",
+            run.res.as_ref().map(|r| r.evaluations).unwrap_or(0),
+            run.res.as_ref().map(|r| r.nontrivial.len()).unwrap_or(0),
+            run.res.as_ref().map(|r| r.complete).unwrap_or(false),
+            t0.elapsed().as_secs_f64(),
+            if run.note.is_empty() { "" } else { " — " },
+            run.note
+        );
+        runs.push(run);
+    }
+    let _ = tmp.close();
+
+    // aggregate
+    let mut rep = Reporter::new(PROP);
+    let mut evaluations = 0u64;
+    let mut skipped = 0u64;
+    let mut nontrivial = 0u64;
+    let mut nontrivial_cases = 0u64;
+    let mut violating_cases = 0u64;
+    let mut samples: Vec<Value> = Vec::new();
+    let mut per_ep = BTreeMap::new();
+    let mut exhaustive = only.is_none();
+    let mut capped = false;
+    let mut targets_total = 0usize;
+    for run in &runs {
+        let mut ep = json!({"note": run.note});
+        match &run.res {
+            Some(r) => {
+                if let Some(m) = &r.machinery {
+                    machinery(format!("sweep {}: {m}", run.name));
+                }
+                evaluations += r.evaluations;
+                skipped += r.skipped_undeliverable;
+                nontrivial += r.nontrivial.len() as u64;
+                nontrivial_cases += r.nontrivial_cases;
+                violating_cases += r.violating_cases;
+                exhaustive &= r.complete;
+                capped |= r.capped;
+                targets_total += r.evals_by_target.len();
+                rep.add_all(r.violations.iter().cloned());
+                // a few actual inputs per entry point: the first sample of distinct targets
+                let mut seen = std::collections::BTreeSet::new();
+                for s in &r.samples {
+                    if seen.len() < 4 && seen.insert(s.target.clone()) {
+                        samples.push(json!({"entry_point": run.name, "target": s.target, "input": s.input, "delivery": s.mode, "outcome": s.outcome}));
+                    }
+                }
+                let mut by_target = serde_json::Map::new();
+                for (t, n) in &r.evals_by_target {
+                    let oc = r.outcomes.get(t).cloned().unwrap_or_default();
+                    let mut top: Vec<(&String, &u64)> = oc.iter().collect();
+                    top.sort_by(|a, b| b.1.cmp(a.1).then(a.0.cmp(b.0)));
+                    let top: serde_json::Map<String, Value> = top.into_iter().take(8).map(|(k, v)| (k.clone(), json!(v))).collect();
+                    by_target.insert(t.clone(), json!({"evaluations": n, "outcome_classes": oc.len(), "most_frequent_outcomes": top}));
+                }
+                ep["evaluations"] = json!(r.evaluations);
+                ep["distinct_nontrivial"] = json!(r.nontrivial.len());
+                ep["nontrivial_cases"] = json!(r.nontrivial_cases);
+                ep["skipped_undeliverable"] = json!(r.skipped_undeliverable);
+                ep["units"] = json!(format!("{}/{}", r.units_done, r.units_total));
+                ep["complete"] = json!(r.complete);
+                ep["capped"] = json!(r.capped);
+                ep["wall_s"] = json!((r.wall_s * 10.0).round() / 10.0);
+                ep["violating_cases"] = json!(r.violating_cases);
+                ep["targets"] = Value::Object(by_target);
+            }
+            None => {
+                exhaustive = false;
+                ep["complete"] = json!(false);
+            }
+        }
+        if !run.extra_violations.is_empty() {
+            exhaustive = false;
+        }
+        rep.add_all(run.extra_violations.iter().cloned());
+        per_ep.insert(run.name.to_string(), ep);
+    }
+    let wall = start.elapsed().as_secs_f64();
+
+    let mut ev = Evidence::new(PROP, &args.tier, "exploration");
+    ev.set("evaluations", evaluations)
+        .set("distinct_nontrivial", nontrivial)
+        .set(
+            "rule",
+            "No sampling. Per target (a parser behind one of the 9 entry points, optionally inside a fixed valid template) the engine runs (i) EVERY string of at most L tokens over that parser's token alphabet (L per target: 4 in quick, 5 in thorough for the main targets, one less for the replicated ones; see per_entry_point) and (ii) for every seed message EVERY single mutation — position x {flip each of 8 bits, delete, duplicate, insert each of 00 0a 0d 20 22 25 2d 3b 80 ff, truncate here} plus every marked numeric field (Content-Length, chunk size, ws length forms, Range numbers, boundary length) replaced by 0, 65536, 2^32, 2^63, 2^64-1, 2^64, 20 digits, leading +/-, empty — and in thorough EVERY double mutation (a second single mutation of each single mutant) for the targets marked double. Each input is delivered whole and, for streamed parsers, as 1-byte fragments and (short inputs) at every single cut. evaluations = executions (input x delivery) that reached the parser; inputs the HTTP/1 decoder refuses before a typed parser sees them are counted in skipped_undeliverable, not here. distinct_nontrivial = number of distinct (target, outcome class, input-shape class, delivery kind) tuples among NON-TRIVIAL executions, counted with a hash set; outcome class = how far the parser got and how it ended (items decoded, Ok variant, which Err variant, response status); input-shape class = number of tokens, or (seed, mutation operator[s]); an execution is non-trivial when its outcome class differs from the outcome of the target's empty token string (the parser got past its first token).",
+        )
+        .set("samples", Value::Array(samples))
+        .set("exhaustive", exhaustive)
+        .set("capped", capped)
+        .set("nontrivial_executions", nontrivial_cases)
+        .set("skipped_undeliverable", skipped)
+        .set("targets", targets_total as u64)
+        .set("entry_points", runs.len() as u64)
+        .set("per_entry_point", json!(per_ep))
+        .set("violating_cases", violating_cases)
+        .set("violations", json!(rep.summaries()))
+        .set("threads", mc_core::cli::threads() as u64)
+        .set("case_timeout_s", CASE_TIMEOUT_S)
+        .set("address_space_cap_bytes", AS_CAP_BYTES);
+    ev.assume("the statement's 'random bytes' are replaced by bounded-exhaustive token strings and mutations: a coverage statement for the bound, not a claim about all byte strings")
+        .assume("header values reach typed parsers only through the real HTTP/1 request decoder (a value it refuses cannot be delivered by a peer); FromStr parsers are called only with what HeaderValue::to_str admits")
+        .assume("multipart: a parked Pending after the source ended is property C15's subject and is an outcome class here; only a busy loop beyond the poll bound or a panic is a C19 violation")
+        .assume("debug assertions and overflow checks are on: a failed debug_assert or an arithmetic overflow is a panic");
+    ev.wall_s = wall;
+    ev.violations = rep.unknown_count() as i64;
+    ev.write();
+
+    println!(
+        "panicx C19 tier={} evaluations={} distinct_nontrivial={} targets={} skipped_undeliverable={} violating_cases={} exhaustive={} capped={} wall={:.1}s",
+        args.tier, evaluations, nontrivial, targets_total, skipped, violating_cases, exhaustive, capped, wall
+    );
+    for run in &runs {
+        if let Some(r) = &run.res {
+            println!("  {}: {} evaluations, {} classes, units {}/{}, {:.1}s{}", run.name, r.evaluations, r.nontrivial.len(), r.units_done, r.units_total, r.wall_s, if r.complete { "" } else { " (INCOMPLETE)" });
+        } else {
+            println!("  {}: no result ({})", run.name, run.note);
+        }
+    }
+    std::process::exit(rep.finish());
 }
